@@ -4,6 +4,9 @@ Same exploration as C03 (real HeavyHitters under E1), oracle T2/T3: for every
 key x with f > 0 and bound b = max_r(2f - W_r) > 0 (W_r from probed cell
 ownership): hh[x] >= b; query(inf, t) contains x with count >= b whenever
 b >= t (t in {0, 1, None, b}); if 2f > N, query(1, t)[0] is x with count >= 2f-N.
+Every pass ends with query(1, 0); query(inf, 0) on EVERY sketch of the system, so
+an untouched sketch is asked the same question again after another sketch was
+modified and queried, and a larger k follows a smaller one.
 Multiplicities are kept below 2^32 in total (the property excludes saturation).
 Sub-systems: all orderings (width 1, one sketch, depth 7) and all partitions /
 merge orders (width 1, 4 sketches).
